@@ -253,6 +253,7 @@ class PE(object):
     self.trace_calls = []  # (callee name, loc)
     self.module_overrides = module_overrides or {}
     self.unsupported = []
+    self.fork = None      # Fork instance: symbolic python conditions allowed
 
   # -- helpers -----------------------------------------------------------
   def err(self, msg, node=None):
@@ -261,10 +262,16 @@ class PE(object):
     raise Unsupported("unsupported-construct %s %s" % (loc, msg))
 
   def note_loc(self, term):
-    if term not in self.locs and self.cur_module is not None and \
+    # keyed by identity: terms are DAGs of shared tuples and must never be
+    # hashed or compared structurally (exponential on shared sub-terms)
+    if id(term) not in self.locs and self.cur_module is not None and \
         self.cur_node is not None:
-      self.locs[term] = self.cur_module.loc(self.cur_node)
+      self.locs[id(term)] = (term, self.cur_module.loc(self.cur_node))
     return term
+
+  def loc_of(self, term):
+    r = self.locs.get(id(term))
+    return r[1] if r else None
 
   def x_input(self):
     return Tensor(("x",), self.x_shape)
@@ -719,16 +726,26 @@ class PE(object):
       v = True
       for e in node.values:
         v = self.eval(e, frames, module)
-        if isinstance(v, Tensor):
-          self.err("tensor in python boolean context", e)
+        if isinstance(v, Tensor) and v.term[0] != "c":
+          if self.fork is None:
+            self.err("tensor in python boolean context", e)
+          if not self.truth(v, e):
+            return False
+          v = True
+          continue
         if not self.truth(v, e):
           return v
       return v
     v = False
     for e in node.values:
       v = self.eval(e, frames, module)
-      if isinstance(v, Tensor):
-        self.err("tensor in python boolean context", e)
+      if isinstance(v, Tensor) and v.term[0] != "c":
+        if self.fork is None:
+          self.err("tensor in python boolean context", e)
+        if self.truth(v, e):
+          return True
+        v = False
+        continue
       if self.truth(v, e):
         return v
     return v
@@ -826,6 +843,8 @@ class PE(object):
     if isinstance(v, Tensor):
       if v.term[0] == "c":
         return v.term[1] != 0
+      if self.fork is not None:
+        return self.fork.decide(v.term)
       self.err("tensor used as python condition", node)
     if isinstance(v, (Obj, Func, ClassRef, Ext)):
       return True
@@ -1185,6 +1204,51 @@ class PE(object):
   def call_ext(self, name, args, kwargs, node):
     from . import prims
     return prims.call(self, name, args, kwargs, node)
+
+
+class Fork(object):
+  """Replays a vector of decisions for symbolic python conditions and
+  records the path condition; `explore` enumerates all paths."""
+
+  def __init__(self, replay):
+    self.replay = list(replay)
+    self.path = []       # (term, taken)
+    self.pos = 0
+
+  def decide(self, term):
+    # the same condition met twice on one path keeps its first outcome
+    for t, taken in self.path:
+      if t == term:
+        return taken
+    if self.pos < len(self.replay):
+      taken = self.replay[self.pos]
+    else:
+      taken = True
+    self.pos += 1
+    self.path.append((term, taken))
+    return taken
+
+
+def explore(run, max_paths=256):
+  """run(fork) -> result ; returns list of (path, result_or_exception)."""
+  out = []
+  stack = [[]]
+  while stack:
+    replay = stack.pop()
+    fork = Fork(replay)
+    try:
+      res = run(fork)
+    except (PyRaise, ConfigRejected) as e:
+      res = e
+    out.append((list(fork.path), res))
+    if len(out) > max_paths:
+      raise Unsupported("unsupported-construct more than %d paths" %
+                        max_paths)
+    # schedule the alternatives of every decision taken by default
+    for i in range(len(replay), len(fork.path)):
+      alt = [t for _, t in fork.path[:i]] + [not fork.path[i][1]]
+      stack.append(alt)
+  return out
 
 
 class ModuleRef(object):
